@@ -235,16 +235,6 @@ fn trees_bits_eq(a: &[NodeF], b: &[NodeF]) -> bool {
         })
 }
 
-/// Number of leading validity queries of a solve call that are root checks (start root, and for
-/// RRT-Connect the goal root).
-fn root_checks(case: &PlanCase) -> usize {
-    match case.planner {
-        PlannerTag::RRTConnect => 2,
-        PlannerTag::PRM => 0,
-        _ => 1,
-    }
-}
-
 /// C16 (+C17) transition oracle for one single-iteration solve step.
 #[allow(clippy::too_many_arguments)]
 pub fn transition<K: Kind>(
@@ -309,7 +299,12 @@ pub fn transition<K: Kind>(
             ctx.fail(format!("C16:uniform-sampled-with-bias-1:{pname}"), "sample_uniform called although goal_bias = 1");
         }
     }
-    let mut pos = root_checks(case).min(vlog.len());
+    // validity queries made before the first motion check of this call (root checks) carry an
+    // even id: skip them, however many there are
+    let mut pos = 0;
+    while pos < vlog.len() && ids[pos] % 2 == 0 {
+        pos += 1;
+    }
     match (case.planner, before, &st.snap) {
         (PlannerTag::RRT, Snap::Tree(t0), Snap::Tree(t1))
         | (PlannerTag::RRTStar, Snap::Tree(t0), Snap::Tree(t1)) => {
@@ -340,7 +335,17 @@ pub fn transition<K: Kind>(
                 return;
             }
             let new = &t1[t0.len()];
-            let matching: Vec<&(usize, Vec<f64>)> = cands.iter().filter(|(_, s)| bits_eq(s, &new.s)).collect();
+            // "the sample itself / the point at exactly the maximum step": bit-equal to what the
+            // reference computes, or - should a refactoring compute the same point by a slightly
+            // different expression - within the metric tolerance of it
+            let near_tol = seg_tol(&case.space, case.step) + dist_tol(&case.space, &new.s, &new.s);
+            let matching: Vec<&(usize, Vec<f64>)> = cands
+                .iter()
+                .filter(|(_, s)| bits_eq(s, &new.s) || ks.d(s, &new.s) <= near_tol)
+                .collect();
+            if !cands.iter().any(|(_, s)| bits_eq(s, &new.s)) && !matching.is_empty() {
+                ctx.label("new-state-equal-within-tolerance-only");
+            }
             if which.c16 {
                 if matching.is_empty() {
                     let far = nmin > case.step;
@@ -418,7 +423,8 @@ pub fn transition<K: Kind>(
                 return;
             }
             let new_a = &a1[a0.len()];
-            if !cands.iter().any(|(p, s)| bits_eq(s, &new_a.s) && Some(*p) == new_a.parent) {
+            let near_tol = seg_tol(&case.space, case.step) + dist_tol(&case.space, &new_a.s, &new_a.s);
+            if !cands.iter().any(|(p, s)| (bits_eq(s, &new_a.s) || ks.d(s, &new_a.s) <= near_tol) && Some(*p) == new_a.parent) {
                 ctx.fail(
                     "C16:connect:wrong-extension-of-first-tree:RRTConnect",
                     format!("new node {:?} (parent {:?}), expected one of {:?}", new_a.s, new_a.parent, cands),
@@ -453,7 +459,7 @@ pub fn transition<K: Kind>(
                 return;
             }
             let new_b = &b1[b0.len()];
-            if !cands_b.iter().any(|(p, s)| bits_eq(s, &new_b.s) && Some(*p) == new_b.parent) {
+            if !cands_b.iter().any(|(p, s)| (bits_eq(s, &new_b.s) || ks.d(s, &new_b.s) <= near_tol) && Some(*p) == new_b.parent) {
                 ctx.fail(
                     "C16:connect:wrong-extension-of-other-tree:RRTConnect",
                     format!("other tree's new node {:?} (parent {:?}) is not the steer of its nearest node toward the first tree's new node; expected one of {:?}", new_b.s, new_b.parent, cands_b),
@@ -503,7 +509,9 @@ fn rrtstar_transition<K: Kind>(
     };
     // (a) cost bookkeeping, bit-exact
     let want = t0[parent].cost + ks.d(&new.s, &t0[parent].s);
-    if want.to_bits() != new.cost.to_bits() {
+    let want2 = t0[parent].cost + ks.d(&t0[parent].s, &new.s);
+    let close = |a: f64, b: f64| a == b || (a - b).abs() <= 2.0 * f64::EPSILON * a.abs().max(b.abs());
+    if !close(want, new.cost) && !close(want2, new.cost) {
         ctx.fail(
             "C17:cost-not-parent-cost-plus-edge",
             format!("new node cost {:e}, parent {parent} cost {:e} + edge {:e} = {want:e}", new.cost, t0[parent].cost, ks.d(&new.s, &t0[parent].s)),
@@ -568,7 +576,8 @@ fn rrtstar_transition<K: Kind>(
         let is_rewired = a.parent == Some(n) && b.parent != Some(n);
         if is_rewired {
             rewired += 1;
-            if a.cost.to_bits() != c.to_bits() {
+            let c2 = new.cost + ks.d(&new.s, &b.s);
+            if !close(a.cost, c) && !close(a.cost, c2) {
                 ctx.fail("C17:rewired-cost-wrong", format!("node {j} rewired with cost {:e}, expected cost(new) + edge = {c:e}", a.cost));
             }
             if !(c < b.cost) {
